@@ -101,7 +101,12 @@ def run(ctx, rep):
 
 
 def keystream(rep, prog):
-    roots = [f for f in prog.fns if f.path.startswith("classic::crypto_secretbox_impl::") and f.kind != "closure"]
+    # discovered from the public API: functions below crypto_secretbox_detached / _open_detached that
+    # drive an XSalsa20 cipher
+    pubs = prog.by_path.get("classic::crypto_secretbox::crypto_secretbox_detached", []) + \
+        prog.by_path.get("classic::crypto_secretbox::crypto_secretbox_open_detached", [])
+    roots = [prog.by_key[k] for k in prog.reach_fns(pubs)
+             if any(c.path == "salsa20::cipher::StreamCipher::apply_keystream" for c in prog.by_key[k].calls())]
     n = 0
     for f in roots:
         ks = [c for c in f.calls() if c.path == "salsa20::cipher::StreamCipher::apply_keystream"]
